@@ -7,7 +7,11 @@ package c03
 import (
 	"encoding/json"
 	"fmt"
+	"os"
+	"os/exec"
+	"path/filepath"
 	"reflect"
+	"sort"
 	"strings"
 
 	"panmc/internal/core"
@@ -45,6 +49,7 @@ type tcase struct {
 	Val  string `json:"val"`
 	ErrK string `json:"err"`
 	NT   bool   `json:"nt"`
+	Mod  string `json:"mod,omitempty"` // G10: text of the module file ./mod.pangaea imported by Src (run through the CLI)
 }
 
 func mk(family string, nt bool, prog []node) tcase {
@@ -262,6 +267,13 @@ func genG2(maxArgs int, emit func(tcase)) {
 				prog := []node{set("w", i(1000)), set("f", f), call{callee: v("f"), args: args}}
 				nt := npos != len(ps) || len(passed) > 0
 				emit(mk("G2/binding", nt, prog))
+				// the same call with its argument list written over several lines (argument literals are flat here,
+				// so every ", " of the rendered list separates two arguments)
+				if len(al) >= 1 && len(al) <= maxArgs-2 && flatArgs(args) {
+					for lay := 1; lay <= 4; lay++ {
+						emit(mk("G2/binding-layout", nt, []node{set("w", i(1000)), set("f", f), call{callee: v("f"), args: args, layout: lay}}))
+					}
+				}
 				// an undefined \name must be a NameErr (exactly the arguments received)
 				for _, k := range kws {
 					if !passed[k.name] && len(al) <= 2 {
@@ -272,6 +284,16 @@ func genG2(maxArgs int, emit func(tcase)) {
 			}
 		}
 	}
+}
+
+// flatArgs: no argument contains a ", " of its own (only then may the layout split at every ", ")
+func flatArgs(args []arg) bool {
+	for _, a := range args {
+		if strings.Contains(a.e.src(), ", ") {
+			return false
+		}
+	}
+	return true
 }
 
 // ---------------------------------------------------------------- G3
@@ -601,6 +623,74 @@ func genG9(emit func(tcase)) {
 	}
 }
 
+// ---------------------------------------------------------------- G10: functions written in an imported file
+
+// A module's functions were written in the module file: their free names resolve in the module's scope and
+// then in the global scope, never in the scope of the function that happened to evaluate `import`.
+const g10Mod = "describe := m{|x| [x, unit]}\nprice := m{|n| n * rate}\ntopLevelUnit := unit\ncount := 0\nbump := m{count := count + 1; count}\n"
+
+func genG10(emit func(tcase)) {
+	type shadow struct{ param, arg, local string }
+	shadows := []shadow{{"unit", `"local-unit"`, ""}, {"rate", "1000", ""}, {"unit", `"local-unit"`, "rate := 1000; count := 50; "}, {"zz", "0", "describe := 5; unit := \"assigned-local\"; "}}
+	for _, sh := range shadows {
+		wrappers := map[string]string{
+			"top-level":     `mm := import("./mod")`,
+			"function":      fmt.Sprintf(`load := {|%s| %simport("./mod")}`+"\nmm := load(%s)", sh.param, sh.local, sh.arg),
+			"nested":        fmt.Sprintf(`load := {|%s| %s{|| import("./mod")}()}`+"\nmm := load(%s)", sh.param, sh.local, sh.arg),
+			"method":        fmt.Sprintf(`mm := {get: m{|%s| %simport("./mod")}}.get(%s)`, sh.param, sh.local, sh.arg),
+			"chain-element": fmt.Sprintf(`mm := [%s]@{|%s| %simport("./mod")}[0]`, sh.arg, sh.param, sh.local),
+			"second-import": fmt.Sprintf(`m0 := import("./mod")`+"\n"+`load := {|%s| %simport("./mod")}`+"\nmm := load(%s)", sh.param, sh.local, sh.arg),
+		}
+		names := make([]string, 0, len(wrappers))
+		for n := range wrappers {
+			names = append(names, n)
+		}
+		sort.Strings(names)
+		for _, wn := range names {
+			for _, re := range []bool{false, true} {
+				src := "unit := \"global-unit\"\nrate := 2\n" + wrappers[wn] + "\n"
+				rate := 20
+				if re {
+					src += "rate := 3\n"
+					rate = 30
+				}
+				src += "[mm.describe(1), mm.price(10), mm.topLevelUnit, mm.bump, mm.bump, unit, rate].p\n"
+				want := fmt.Sprintf("[[1, \"global-unit\"], %d, \"global-unit\", 1, 1, \"global-unit\", %d]\n", rate, rate/10)
+				emit(tcase{Family: "G10/import-" + wn, Src: src, Mod: g10Mod, Out: want, NT: true})
+			}
+		}
+	}
+}
+
+func judgeCLI(c *core.Ctx, t tcase) {
+	c.Eval(1)
+	c.Validated(1)
+	c.Nontrivial(1)
+	cli := os.Getenv("PANMC_CLI")
+	if cli == "" {
+		c.HarnessError("PANMC_CLI is not set")
+		return
+	}
+	dir, err := os.MkdirTemp(os.Getenv("PANMC_SCRATCH"), "c03mod")
+	if err != nil {
+		c.HarnessError("%v", err)
+		return
+	}
+	defer os.RemoveAll(dir)
+	os.WriteFile(filepath.Join(dir, "mod.pangaea"), []byte(t.Mod), 0o644)
+	os.WriteFile(filepath.Join(dir, "main.pangaea"), []byte(t.Src), 0o644)
+	cmd := exec.Command("timeout", "30", cli, filepath.Join(dir, "main.pangaea"))
+	cmd.Dir = dir
+	var so, se strings.Builder
+	cmd.Stdout, cmd.Stderr = &so, &se
+	cmd.Run()
+	c.Outcome("G10:" + map[bool]string{true: "ok", false: "differs"}[so.String() == t.Out])
+	if so.String() != t.Out {
+		c.Violation(core.Violation{Key: t.Family + "/value", Case: core.JSON(t), Desc: strings.ReplaceAll(t.Src, "\n", " ;; "), Expected: fmt.Sprintf("stdout %q", t.Out),
+			Observed: fmt.Sprintf("stdout %q stderr %.200q", so.String(), se.String())})
+	}
+}
+
 // ---------------------------------------------------------------- judging
 
 func judge(c *core.Ctx, t tcase, o panrun.Obs) {
@@ -675,12 +765,20 @@ func run(c *core.Ctx) {
 		judge(c, t, o)
 	})
 	c.Note("programs_total", total)
+	var cli []tcase
+	genG10(func(t tcase) { cli = append(cli, t) })
+	tk.Sharded(c, len(cli), func(i int) { judgeCLI(c, cli[i]) })
+	c.Note("programs_run_through_the_cli", len(cli))
 }
 
 func replay(c *core.Ctx, raw json.RawMessage) {
 	var t tcase
 	if err := json.Unmarshal(raw, &t); err != nil {
 		c.HarnessError("bad case: %v", err)
+		return
+	}
+	if strings.HasPrefix(t.Family, "G10/") {
+		judgeCLI(c, t)
 		return
 	}
 	obs := c.R().Thunks("", []string{t.Src}, "")
